@@ -3,6 +3,7 @@ pub mod canon;
 pub mod engine;
 pub mod model;
 pub mod qast;
+pub mod sqlast;
 pub mod report;
 pub mod rng;
 pub mod sx;
